@@ -226,6 +226,10 @@ func TestVerifC14(t *testing.T) {
 		// (2) every other verb: plain, and with a random flag set / width / precision (thorough: all 32
 		// flag sets for d t c p w T e U b o z !, three random ones for the rest)
 		for _, verb := range bad {
+			if !thorough && shi >= 8 && !strings.Contains("dtcpwTeUboz!", verb) && rng.Intn(8) != 0 {
+				// quick tier, composite shapes: the 12 representative verbs always, the others 1:8
+				continue
+			}
 			paths = append(paths, vFmtPath(verb, 0, 0, 0))
 			if thorough && strings.Contains("dtcpwTeUboz!", verb) {
 				for bits := 1; bits < 32; bits++ {
